@@ -11,7 +11,7 @@ def main():
     out_path = sys.argv[2]
     import vf
     vf.use_repo()
-    from vf.core import Ctx, Inconclusive, unjson
+    from vf.core import Ctx, Inconclusive, CaseTimeout, unjson
     mod = importlib.import_module(f"vf.checks.{spec['prop'].lower()}")
     ctx = Ctx(spec["prop"], spec["tier"], spec["seed"], spec["shard"],
               spec["n_shards"], spec["cases"], spec.get("params"))
@@ -20,7 +20,15 @@ def main():
             mod.replay(ctx, unjson(spec["replay"]))
         else:
             mod.run_shard(ctx)
+        ctx.disarm()
         res = ctx.result()
+    except CaseTimeout:
+        ctx.disarm()
+        res = ctx.result()
+        res["inconclusive"].append(
+            f"shard {spec['shard']}: case {ctx._armed_for} exceeded {ctx.case_timeout:.0f}s of wall-clock "
+            f"(cases take milliseconds); the shard stopped there, results so far are kept")
+        res["fatal_inconclusive"] = True
     except Inconclusive as err:
         res = ctx.result()
         res["inconclusive"].append(f"shard {spec['shard']}: {err}")
